@@ -180,4 +180,73 @@ inline void applyMag(Paths64& pp, int shift, int64_t tx, int64_t ty, bool jitter
     }
 }
 
+// ---------------------------------------------------------------------------
+// G-deg: arbitrary degenerate input (duplicates, spikes, collinear runs,
+// horizontals, coincident paths) in a magnitude class
+// ---------------------------------------------------------------------------
+inline int64_t magOfClass(int cls) {
+  static const int64_t m[] = {8, 64, int64_t(1) << 20, int64_t(1) << 29, int64_t(1) << 40, int64_t(1) << 52, int64_t(1) << 62};
+  return m[std::max(0, std::min(6, cls))];
+}
+struct DegPool { std::vector<Point64> pts; };
+inline Point64 degPoint(int64_t M, DegPool& pool) {
+  int k = (int)G::range(0, 9);
+  Point64 q;
+  if (pool.pts.empty() || k <= 4) q = Point64(G::sym(M), G::sym(M));
+  else if (k == 5) q = G::oneOf(pool.pts);                                   // repeat an earlier point
+  else if (k == 6) q = Point64(G::oneOf(pool.pts).x, G::sym(M));              // share an x
+  else if (k == 7) q = Point64(G::sym(M), G::oneOf(pool.pts).y);              // share a y (horizontals)
+  else if (k == 8 && pool.pts.size() >= 2) {                                   // on the line through two earlier points
+    const Point64& a = pool.pts[G::pick(pool.pts.size())];
+    const Point64& b = pool.pts[G::pick(pool.pts.size())];
+    int64_t t = G::range(-1, 3);
+    i128 x = (i128)a.x + (i128)t * ((i128)b.x - a.x), y = (i128)a.y + (i128)t * ((i128)b.y - a.y);
+    if (x > M || x < -M || y > M || y < -M) q = a; else q = Point64((int64_t)x, (int64_t)y);
+  } else {                                                                      // within a unit of an earlier point
+    const Point64& a = G::oneOf(pool.pts);
+    q = Point64(std::max(-M, std::min(M, a.x + G::sym(1))), std::max(-M, std::min(M, a.y + G::sym(1))));
+  }
+  pool.pts.push_back(q);
+  return q;
+}
+inline Path64 degPath(int maxVerts, int64_t M, DegPool& pool) {
+  int n = (int)G::range(0, maxVerts);
+  Path64 p;
+  for (int k = 0; k < n; ++k) p.push_back(degPoint(M, pool));
+  return p;
+}
+inline Paths64 degPaths(int maxPaths, int maxVerts, int64_t M, DegPool& pool) {
+  int n = (int)G::range(0, maxPaths);
+  Paths64 r;
+  for (int k = 0; k < n; ++k) {
+    if (k > 0 && G::chance(10)) r.push_back(r[G::pick(r.size())]);  // coincident path
+    else r.push_back(degPath(maxVerts, M, pool));
+  }
+  return r;
+}
+
+// the standard G-gp case with magnitude classes (shared by C01, C03, C04, C13, ...)
+inline GpCase gpCase(int maxTop = 61) {
+  static const std::vector<int64_t> Rs = {1 << 10, 1 << 13, 1 << 16, 1 << 16, 1 << 20, 1 << 20};
+  int64_t R = G::oneOf(Rs);
+  GpCase g = gpCandidate(R);
+  int magClass = (int)G::range(0, 3);  // 0,1: as is; 2: up to 2^40; 3: up to 2^maxTop
+  if (magClass >= 2) {
+    int top = magClass == 2 ? std::min(40, maxTop) : maxTop;
+    int rbits = 0;
+    while ((int64_t(1) << rbits) < 2 * R) ++rbits;  // shapes may reach ~1.5 R
+    if (top - rbits - 1 > 0) {
+      int shift = (int)G::range(0, top - rbits - 1);
+      int64_t room = (int64_t(1) << top) - ((2 * R) << shift) - (int64_t(1) << shift);
+      // mostly keep the translation within 2^8 x the shape size, so that feature sizes scale with the magnitude
+      // (double rounding stays far below the features); sometimes use the full range
+      if (G::chance(75) && shift + rbits + 8 < 62) room = std::min(room, int64_t(1) << (shift + rbits + 8));
+      int64_t tx = room > 0 ? G::sym(room) : 0, ty = room > 0 ? G::sym(room) : 0;
+      applyMag(g.subj, shift, tx, ty, true);
+      applyMag(g.clip, shift, tx, ty, true);
+    }
+  }
+  return g;
+}
+
 }  // namespace GEN
